@@ -7,7 +7,9 @@ parse_qs, the parser's checks and setters), S = "parsing what was rendered gives
 """
 import urllib.parse
 
+import copy
 import json
+from concurrent.futures import ThreadPoolExecutor
 from harness import common
 from harness.impl import magnet as mg
 from harness.impl import fsenv
@@ -22,7 +24,16 @@ RULE = ('magnets = constructor keyword sets (hash in 4 notations and mixed case,
         'parameter; distinct = distinct rendered link.'
         ' Histories on one Magnet object (setters; in-place list/dict methods on tr, ws, kt, x through a getter call or a kept '
         'reference; torrent(); no-op steps), judged after every step; torrent -> magnet -> torrent also per locale / file-system '
-        'encoding in child interpreters (ASCII fs, UTF-8 mode, stdio variants, shadowed latin-1 / koi8-r / gbk / cp1252 / shift_jis).')
+        'encoding in child interpreters (ASCII fs, UTF-8 mode, stdio variants, shadowed latin-1 / koi8-r / gbk / cp1252 / shift_jis).'
+        ' Round 6, size: magnets whose rendered link has b-1, b, b+1 fields for every b in 10..1024 (16 boundaries; trackers / webseeds '
+        'from five URL families incl. quoting, IPv6, non-ASCII), random sizes up to 1500 URLs, hundreds of keywords, 150 x_ parameters, '
+        'values of 255..20000 characters, xl up to 10^4299; a slice of them mangled for the parser model; torrents with up to 400 '
+        '(thorough 1100) trackers / webseeds. Round 6, foreign tracker layouts: torrents whose announce / announce-list / url-list / '
+        'httpseeds were written straight into the metainfo or come from a .torrent file bencoded by the harness and read with '
+        'Torrent.read_stream() - announce absent / present x announce-list absent / empty / empty tiers / duplicates within and '
+        'across tiers / containing announce literally, only in its stored form (space vs +) or not at all (exhaustive over 3 URLs and '
+        '<= 2 tiers of <= 2 URLs, random beyond) x url-list absent / blank string / string / list with duplicates; what the getters '
+        'Torrent.trackers / Torrent.webseeds show is compared with the model of those getters and is what the round trip must preserve.')
 
 FIELDS = ('infohash', 'dn', 'xl', 'tr', 'xs', 'as_', 'ws', 'kt', 'x')
 
@@ -98,6 +109,102 @@ FIXED = [
     {'xt': 'ab' * 20, 'dn': '\udc80'},                                         # lone surrogate: outside the claim
     {'xt': 'ab' * 20, 'xl': 10 ** 4300},                                       # beyond CPython's int->str limit
 ]
+
+
+# ------------------------------------------------------------------ size (round 6): URL lists "of any length"
+# numbers of fields around every boundary a limit could plausibly sit at; the model has no limit at all
+SIZE_BOUNDS = [10, 16, 32, 50, 64, 100, 128, 200, 250, 256, 300, 400, 500, 512, 1000, 1024]
+URL_FAMILIES = [lambda i: 'udp://t%d.example.org:6969/announce' % i,
+                lambda i: 'http://%d.tr.example/a b?k=%d&x=1+2' % (i, i),          # needs quoting; a space (stored as '+')
+                lambda i: 'https://[::1]:%d/announce' % (1000 + i),
+                lambda i: 'http://ä%d.example/ü/日本' % i,
+                lambda i: 'wss://w%d/s%%20%d#f' % (i, i)]
+LONG_LENGTHS = [255, 256, 1000, 1024, 2048, 4096, 8192, 20000]
+
+
+def many_urls(rng, n, start=0):
+    """n distinct valid URLs (one family, or a mixture), shuffled"""
+    fams = [rng.choice(URL_FAMILIES)] if rng.random() < 0.6 else URL_FAMILIES
+    us = [fams[i % len(fams)](start + i) for i in range(n)]
+    rng.shuffle(us)
+    return us
+
+
+def long_text(rng, n):
+    a = rng.choice([list('abcXYZ019'), ALPHA, list('&=+%#? '), ['é', '日', '\U0001F600', 'a']])
+    t = ''.join(rng.choice(a) for _ in range(n))[:n].replace('\n', ' ')
+    return t if t.strip() else 'x' + t
+
+
+def gen_sized_kwargs(rng, total=None, maxn=1500):
+    """a magnet (inside WF: no as_ / x_ / blank values) whose rendered link has `total` key=value fields"""
+    if total is None:
+        total = (rng.choice(SIZE_BOUNDS) + rng.choice([-1, 0, 1, 2])) if rng.random() < 0.4 else int(6 * (maxn / 6.0) ** rng.random())
+    total = max(2, min(total, maxn + 5))
+    kw = {'xt': rng.choice(['', 'urn:btih:']) + mg.rand_hex40(rng)}
+    rest = total - 1
+    for k, p, v in (('dn', 0.7, lambda: rand_text(rng).replace('\n', ' ').strip() or 'n'), ('xl', 0.5, lambda: rng.randint(1, 10 ** 12)),
+                    ('xs', 0.3, lambda: 'http://source.example/x y.torrent'),
+                    ('kt', 0.4, lambda: [rand_keyword(rng) for _ in range(rng.choice([1, 2, 3, 10, 100, 101, 300]))])):
+        if rest > 0 and rng.random() < p:
+            kw[k] = v()
+            rest -= 1
+    r = rng.random()
+    n_tr = rest if r < 0.4 else 0 if r < 0.6 else rng.randint(0, rest)
+    kw['tr'] = many_urls(rng, n_tr)
+    kw['ws'] = many_urls(rng, rest - n_tr, start=5000)
+    for k in ('tr', 'ws'):
+        if not kw[k] and rng.random() < 0.5:
+            del kw[k]
+    return kw
+
+
+def gen_long_kwargs(rng):
+    """few fields, but long: a name / URL / keyword / keyword list / xl of hundreds to thousands of characters; many x_"""
+    kw = {'xt': mg.rand_hex40(rng)}
+    L = rng.choice(LONG_LENGTHS)
+    r = rng.random()
+    if r < 0.3:
+        kw['dn'] = long_text(rng, L)
+    elif r < 0.5:
+        kw[rng.choice(['tr', 'ws'])] = ['http://long.example/' + long_text(rng, L).replace(' ', '_'), 'http://a/b']
+    elif r < 0.6:
+        kw['xs'] = 'http://long.example/?q=' + 'a%20b&' * (L // 6)
+    elif r < 0.75:
+        kw['kt'] = [''.join(c for c in long_text(rng, L) if not c.isspace()) or 'k']
+    elif r < 0.85:
+        kw['kt'] = [rand_keyword(rng) for _ in range(rng.choice([100, 101, 255, 256, 1000, 1001]))]
+    elif r < 0.93:
+        kw['xl'] = 10 ** rng.choice([100, 1000, 4299]) - rng.choice([0, 1])
+    else:
+        for i in range(rng.choice([10, 99, 100, 101, 150])):            # D13b at any size
+            kw['x_k%d' % i] = rand_text(rng, 4)
+    return kw
+
+
+def sized_magnets(ctx, rng):
+    """systematic: b-1, b, b+1 fields for every boundary; then random sizes and long values"""
+    out = [gen_sized_kwargs(rng, total=b + d) for b in SIZE_BOUNDS for d in (-1, 0, 1)]
+    out += [gen_sized_kwargs(rng, maxn=ctx.n(400, 1500)) for _ in range(ctx.n(40, 600))]
+    out += [gen_sized_kwargs(rng, total=rng.randint(1200, 1500)) for _ in range(ctx.n(2, 12))]
+    out += [gen_long_kwargs(rng) for _ in range(ctx.n(40, 600))]
+    return out
+
+
+def par_run(drv, reqs, weight=None):
+    """drv.run over several driver processes (big magnets cost the model up to seconds each)"""
+    k = max(1, min(common.NPROC, len(reqs) // 8))
+    if k == 1:
+        return drv.run(reqs)
+    order = sorted(range(len(reqs)), key=(lambda i: -weight(reqs[i])) if weight else (lambda i: 0))
+    parts = [order[j::k] for j in range(k)]
+    with ThreadPoolExecutor(k) as ex:
+        res = list(ex.map(lambda idx: drv.run([reqs[i] for i in idx]), parts))
+    out = [None] * len(reqs)
+    for idx, rs in zip(parts, res):
+        for i, r in zip(idx, rs):
+            out[i] = r
+    return out
 
 
 def fields(m):
@@ -323,9 +430,14 @@ def eval_magnets(ctx, drv, kws):
             continue
         todo.append((kw, o))
     reqs = [{'op': 'c13.roundtrip', 'm': _mjson(o['fields']), 'valid': _valid_urls(_utils, o['fields'])} for kw, o in todo]
-    replies = drv.run(reqs)
+    replies = par_run(drv, reqs, weight=lambda q: len(q['valid']) ** 2)
     for (kw, o), r in zip(todo, replies):
         f = o['fields']
+        nf = r.get('fields', 0)
+        if nf >= 10:
+            ctx.dist['magnet-fields/' + ('10-99' if nf < 100 else '100-999' if nf < 1000 else '>=1000')] += 1
+        if max((len(x) for x in _strs(f)), default=0) >= 255 or (f['xl'] or 0) >= 10 ** 100:
+            ctx.dist['magnet-long-value(>=255 chars or xl>=10^100)'] += 1
         bad_urls = [u for u in f['tr'] + f['ws'] + [x for x in (f['xs'], f['as_']) if x is not None] if not _utils.is_url(u)]
         case = {'kind': 'magnet', 'kwargs': kw, 'fields': f, 'invalid_stored_urls': bad_urls}
         uri = o.get('uri')
@@ -699,7 +811,12 @@ def eval_parser(ctx, drv, uris):
 
 
 # ------------------------------------------------------------------ torrent -> magnet -> torrent
-def gen_torrent(rng):
+TRACKER_KEYS = ('announce', 'announce-list', 'url-list', 'httpseeds')
+T_URLS = [u for u in URLS if not u.startswith(' ')]
+LAY_U = ['http://a/1', 'http://b/b c', 'http://b/b+c']          # the 2nd is stored as the 3rd
+
+
+def _base_torrent(rng):
     L = 16384 * rng.choice([1, 1, 2, 4, 64])
     name = rand_text(rng, 8).replace('/', '-').replace('\x00', '0') if rng.random() < 0.93 else rng.choice(['a\nb', 'x\n'])
     name = name.strip() or 'n'
@@ -711,9 +828,99 @@ def gen_torrent(rng):
     else:
         t['files'] = [(['d%d' % i, rand_keyword(rng).replace('/', '-').replace('\x00', '0').strip('.') or 'f'], rng.randint(1, 2 * L))
                       for i in range(rng.randint(1, 4))]
-    urls = [u for u in URLS if not u.startswith(' ')]
-    t['trackers'] = [[rng.choice(urls) for _ in range(rng.randint(1, 3))] for _ in range(rng.randint(0, 3))]
-    t['webseeds'] = [rng.choice(urls) for _ in range(rng.randint(0, 3))]
+    return t
+
+
+def gen_layout(rng):
+    """tracker / webseed metainfo fields as another tool (or a user editing torrent.metainfo) may have left them"""
+    pool = rng.sample(T_URLS, rng.randint(1, 5))                      # a small pool: collisions are the point
+    if rng.random() < 0.3:
+        pool += [u.replace(' ', '+') for u in pool if ' ' in u] + [u.replace('+', ' ') for u in pool if '+' in u]
+    pick = lambda: rng.choice(pool)
+    lay = {}
+    if rng.random() < 0.8:
+        lay['announce'] = pick()
+    if rng.random() < 0.8:
+        lay['announce-list'] = [[pick() for _ in range(rng.choice([0, 1, 1, 2, 3]))] for _ in range(rng.choice([0, 1, 1, 2, 3, 4]))]
+        r = rng.random()
+        if 'announce' in lay and lay['announce-list'] and r < 0.25:          # announce somewhere in the list, not necessarily first
+            rng.choice(lay['announce-list']).insert(rng.randint(0, 1), lay['announce'])
+    for k in ('url-list', 'httpseeds'):
+        if rng.random() < (0.6 if k == 'url-list' else 0.25):
+            lay[k] = rng.choice([pick(), pick(), '', ' ', [], [pick() for _ in range(rng.randint(1, 4))]])
+    lay['origin'] = rng.choice(['edit', 'read'])
+    return lay
+
+
+def layouts_small_scope():
+    """every announce x announce-list over three URLs (two of them equal once stored), <= 2 tiers of <= 2 URLs; url-list shapes
+    and the origin rotate"""
+    tiers = [[]] + [[a] for a in LAY_U] + [[a, b] for a in LAY_U for b in LAY_U]
+    lists = [None, []] + [[t] for t in tiers] + [[t, u] for t in tiers for u in tiers]
+    seeds = [None, 'http://w/1', '', ['http://w/1', 'http://w/2 x', 'http://w/1'], [], ' ', ['http://w/2+x', 'http://w/2 x']]
+    out = []
+    for a in [None] + LAY_U:
+        for al in lists:
+            k = len(out)
+            lay = {'origin': 'read' if k % 2 else 'edit'}
+            if a is not None:
+                lay['announce'] = a
+            if al is not None:
+                lay['announce-list'] = copy.deepcopy(al)
+            if seeds[k % len(seeds)] is not None:
+                lay['url-list'] = copy.deepcopy(seeds[k % len(seeds)])
+            if k % 5 == 0:
+                lay['httpseeds'] = copy.deepcopy(seeds[(k // 5) % len(seeds)] or [])
+            out.append({'name': 'n m', 'L': 16384, 'length': 20000 + k, 'layout': lay})
+    return out
+
+
+def _lay(**kw):
+    origin = kw.pop('origin', 'edit')
+    return {'name': 'n m', 'L': 16384, 'length': 16385, 'layout': dict({k.replace('_', '-'): v for k, v in kw.items()}, origin=origin)}
+
+
+_M, _T1, _T2 = 'http://main.example.org/announce', ['http://t1.example.org/announce', 'http://t2.example.org/announce'], ['udp://t3.example.org:6969']
+FIXED_TORRENTS = [
+    _lay(), _lay(announce=_M), _lay(announce_list=[_T1, _T2]), _lay(announce=_T1[0], announce_list=[_T1, _T2]),
+    _lay(announce=_M, announce_list=[_T1, _T2]),                       # announce is not in announce-list: a tier of its own, first
+    _lay(announce=_M, announce_list=[_T1, _T2], origin='read'),
+    _lay(announce=_M, announce_list=[]), _lay(announce=_M, announce_list=[], origin='read'), _lay(announce=_M, announce_list=[[]]),
+    _lay(announce=_T2[0], announce_list=[_T1, _T2]),                   # announce in a later tier: stays where it is
+    _lay(announce=_M, announce_list=[[_M, _M], [], [_T1[0], _M], _T1]),
+    _lay(announce='http://a/b c', announce_list=[['http://a/b+c', 'http://x/y']]),     # equal only once stored
+    _lay(announce_list=[_T1], url_list='http://w/1', httpseeds=['http://h/1']), _lay(url_list=''), _lay(url_list=' '),
+    _lay(url_list=['http://w/1', 'http://w/1', 'http://w/2 x', 'http://w/2+x'], origin='read'),
+    # validate() accepts these, the getters do not (class of D07i): outside the quantifier, model and code must agree on the error
+    _lay(announce=' http://a/lead'), _lay(announce_list=[['http://a/1'], [' http://a/lead']], origin='read'), _lay(url_list=['nope']),
+    _lay(announce=_M, url_list=' http://a/lead'),
+]
+
+
+def gen_torrent(rng, foreign=0.5):
+    t = _base_torrent(rng)
+    if rng.random() < foreign:
+        t['layout'] = gen_layout(rng)
+    else:
+        t['trackers'] = [[rng.choice(T_URLS) for _ in range(rng.randint(1, 3))] for _ in range(rng.randint(0, 3))]
+        t['webseeds'] = [rng.choice(T_URLS) for _ in range(rng.randint(0, 3))]
+    return t
+
+
+def gen_sized_torrent(rng, n):
+    """n tracker URLs / webseeds: one URL per tier, a few long tiers, or one tier; through the setter or as a foreign layout"""
+    t = _base_torrent(rng)
+    us = many_urls(rng, n)
+    r = rng.random()
+    tiers = [[u] for u in us] if r < 0.4 else [us] if r < 0.6 else [us[i:i + 7] for i in range(0, n, 7)]
+    ws = many_urls(rng, rng.choice([0, 3, n]), start=7000)
+    if rng.random() < 0.5:
+        t['trackers'], t['webseeds'] = tiers, ws
+    else:
+        lay = {'announce-list': tiers, 'url-list': ws, 'origin': rng.choice(['edit', 'read'])}
+        if rng.random() < 0.7:
+            lay['announce'] = rng.choice([us[0], us[-1], 'http://main.example/announce'])
+        t['layout'] = lay
     return t
 
 
@@ -738,31 +945,92 @@ def _view(t):
             'trackers': [str(u) for tier in t.trackers for u in tier], 'webseeds': [str(u) for u in (t.webseeds or [])]}
 
 
+def _benc(v):
+    """bencoding by the harness (a .torrent file as another tool writes it; knows nothing about torf)"""
+    if isinstance(v, bool):
+        v = int(v)
+    if isinstance(v, int):
+        return b'i%de' % v
+    if isinstance(v, str):
+        v = v.encode('utf-8')
+    if isinstance(v, bytes):
+        return b'%d:' % len(v) + v
+    if isinstance(v, (list, tuple)):
+        return b'l' + b''.join(_benc(x) for x in v) + b'e'
+    items = sorted((k.encode('utf-8'), x) for k, x in v.items())
+    return b'd' + b''.join(_benc(k) + _benc(x) for k, x in items) + b'e'
+
+
+def _meta(t):
+    """the tracker / webseed fields the torrent object holds (the model's input); None = key absent; 'odd' if a field has
+    another shape than str / list of str / list of lists of str"""
+    md, out = t.metainfo, {}
+    isl = lambda v: isinstance(v, (list, tuple))
+    for k in TRACKER_KEYS:
+        v = md.get(k)
+        if v is None or (isinstance(v, str) and k != 'announce-list'):
+            out[k] = v
+        elif k == 'announce-list' and isl(v) and all(isl(tier) and all(isinstance(u, str) for u in tier) for tier in v):
+            out[k] = [[str(u) for u in tier] for tier in v]
+        elif k in ('url-list', 'httpseeds') and isl(v) and all(isinstance(u, str) for u in v):
+            out[k] = [str(u) for u in v]
+        else:
+            out['odd'] = k
+    return out
+
+
+def _build_torrent(torf, s):
+    info = {'name': s['name'], 'piece length': s['L']}
+    if 'length' in s:
+        info['length'] = s['length']
+        size = s['length']
+    else:
+        info['files'] = [{'path': p, 'length': n} for p, n in s['files']]
+        size = sum(n for _, n in s['files'])
+    info['pieces'] = bytes(20) * ((size + s['L'] - 1) // s['L'])
+    lay = s.get('layout')
+    if lay is not None and lay.get('origin') == 'read' and not mg.has_surrogate(s['name']):
+        # a third-party .torrent file: bencoded here, read with torf
+        md = {'info': info}
+        md.update({k: lay[k] for k in TRACKER_KEYS if k in lay})
+        t = torf.Torrent.read_stream(_benc(md))
+    else:
+        t = torf.Torrent()
+        t.metainfo['info'] = info
+        if lay is None:
+            t.trackers = s['trackers']
+            t.webseeds = s['webseeds']
+        else:
+            # the user edits torrent.metainfo directly
+            for k in TRACKER_KEYS:
+                if k in lay:
+                    t.metainfo[k] = copy.deepcopy(lay[k])
+    t.validate()
+    t.dump()
+    return t
+
+
 def _run_torrent_chunk(specs):
     torf = common.import_torf()
     out = []
     for s in specs:
         o = {}
         try:
-            t = torf.Torrent()
-            info = {'name': s['name'], 'piece length': s['L']}
-            if 'length' in s:
-                info['length'] = s['length']
-                size = s['length']
-            else:
-                info['files'] = [{'path': p, 'length': n} for p, n in s['files']]
-                size = sum(n for _, n in s['files'])
-            info['pieces'] = bytes(20) * ((size + s['L'] - 1) // s['L'])
-            t.metainfo['info'] = info
-            t.trackers = s['trackers']
-            t.webseeds = s['webseeds']
-            t.validate()
-            t.dump()
-            o['torrent'] = _view(t)
+            t = _build_torrent(torf, s)
+            o['meta'] = _meta(t)
         except BaseException as e:  # noqa
             o['setup_exc'] = f'{type(e).__name__}: {e}'[:200]
             out.append(o)
             continue
+        try:
+            o['torrent'] = _view(t)
+        except BaseException as e:  # noqa
+            # exportable (validate() and dump() passed) but a getter raises: the class of finding D07i (C07)
+            o['view_exc'] = mg.errkind(e)
+            if 'layout' not in s:
+                o['setup_exc'] = f'{type(e).__name__}: {e}'[:200]
+                out.append(o)
+                continue
         try:
             m = t.magnet()
             o['magnet'] = fields(m)
@@ -772,6 +1040,9 @@ def _run_torrent_chunk(specs):
             o['back'] = _view(t2)
         except BaseException as e:  # noqa
             o['exc'] = mg.errkind(e)
+            out.append(o)
+            continue
+        if 'torrent' not in o:
             out.append(o)
             continue
         # history: the user edits a parsed copy of the link (and the torrent made from it), then exports the
@@ -802,9 +1073,32 @@ def run_torrents_in_envs(specs_by_env):
     return {lb: (r['report'], r['result']) for lb, r in zip(labels, res)}
 
 
+def _meta_req(_utils, t, meta):
+    """driver request for a torrent given by its raw tracker / webseed fields; the is_url oracle answers for every raw URL
+    and its stored form"""
+    ul = meta.get('url-list')
+    raw = ([meta['announce']] if meta.get('announce') is not None else []) + [u for tier in (meta.get('announce-list') or []) for u in tier]
+    raw += [ul] if isinstance(ul, str) else list(ul or [])
+    cand = set(raw) | {u.replace(' ', '+') for u in raw} | set(t['trackers']) | set(t['webseeds'])
+    return {'op': 'c13.torrentmeta',
+            't': {'infohash': mg.cps(t['infohash']), 'name': mg.ocps(t['name']), 'size': t['size'], 'announce': mg.ocps(meta.get('announce')),
+                  'announceList': None if meta.get('announce-list') is None else [[mg.cps(u) for u in tier] for tier in meta['announce-list']],
+                  'urlList': ({'kind': 'absent'} if ul is None else {'kind': 'str', 'v': mg.cps(ul)} if isinstance(ul, str)
+                              else {'kind': 'list', 'v': [mg.cps(u) for u in ul]})},
+            'valid': [mg.cps(u) for u in cand if _utils.is_url(u)]}
+
+
+def _unview(j):
+    return {'infohash': mg.uncps(j['infohash']), 'name': mg.uncps(j['name']), 'size': j['size'],
+            'trackers': [mg.uncps(u) for u in j['trackers']], 'webseeds': [mg.uncps(u) for u in j['webseeds']]}
+
+
 def eval_torrents(ctx, drv, specs, env=None, obs=None):
     """env = label of harness.impl.fsenv (the cases ran in a child interpreter with that locale / file-system encoding;
-    `obs` then holds what it observed); the specification and the model do not mention the environment at all"""
+    `obs` then holds what it observed); the specification and the model do not mention the environment at all.
+    A spec with 'layout' has its tracker / webseed fields written straight into the metainfo (or read from a file bencoded by
+    the harness): the model then starts from those raw fields (`c13.torrentmeta`: the getters Torrent.trackers /
+    Torrent.webseeds are part of the model); without 'layout' the fields were laid out by torf's setters (`c13.torrent`)."""
     torf = common.import_torf()
     from torf import _utils
     if obs is None and env is not None:
@@ -812,11 +1106,25 @@ def eval_torrents(ctx, drv, specs, env=None, obs=None):
     if obs is None:
         obs = [o for ch in common.pmap(_run_torrent_chunk, common.split(specs, common.NPROC * 4)) for o in ch]
     tag = '' if env is None else '@' + env
-    todo = [(s, o) for s, o in zip(specs, obs) if 'torrent' in o and not any(mg.has_surrogate(x) for x in [o['torrent']['name']])]
+    todo = []
     for s, o in zip(specs, obs):
-        if 'torrent' not in o:
+        lay = s.get('layout')
+        if 'meta' not in o or ('torrent' not in o and lay is None):
             ctx.case(kind='torrent/not-exportable' + tag)
             ctx.dist['torrent-setup:' + o['setup_exc'].split(':')[0]] += 1
+        elif 'torrent' not in o:
+            # exportable, but Torrent.trackers / Torrent.webseeds raise (validate() accepts what the getters reject: the
+            # class of D07i, property C07): outside C13's quantifier; the model of the getters must raise the same kind
+            # of error and magnet() with it
+            case = {'kind': 'torrent', 'spec': s, 'meta': o['meta'], 'env': env}
+            ctx.case(key=('t-unreadable', env, json.dumps(s, sort_keys=True)), nontrivial=False, kind='torrent/getter-raises(D07i class)' + tag)
+            if 'odd' in o['meta'] or mg.has_surrogate(s['name']):
+                continue
+            t0 = {'infohash': 'ab' * 20, 'name': s['name'], 'size': 1, 'trackers': [], 'webseeds': []}
+            r = drv.run([_meta_req(_utils, t0, o['meta'])])[0]
+            if 'err' not in r['view'] or r['view']['err'] != o['view_exc'] or o.get('exc') != r['view']['err']:
+                ctx.corr_break('c13.getter(error)', case, {'view': r['view'], 'magnet': r['model']},
+                               {'view_exc': o['view_exc'], 'magnet_exc': o.get('exc'), 'uri': o.get('uri')})
         elif mg.has_surrogate(o['torrent']['name']):
             # an exportable torrent whose name holds a lone surrogate (undecodable file name): no Lean string for it, the
             # round trip is judged against the property directly
@@ -827,24 +1135,51 @@ def eval_torrents(ctx, drv, specs, env=None, obs=None):
                 ctx.violation('Torrent.magnet() -> str -> from_string -> torrent() does not preserve infohash, name, size, '
                               'tracker order and webseeds (exportable torrent whose name comes from an undecodable file name)',
                               case, t, {k: o.get(k) for k in ('back', 'exc', 'uri', 'magnet_ok')}, finding_matchers=MATCHERS)
+        else:
+            todo.append((s, o))
     reqs = []
     for s, o in todo:
         t = o['torrent']
-        reqs.append({'op': 'c13.torrent', 't': {'infohash': mg.cps(t['infohash']), 'name': mg.cps(t['name']), 'size': t['size'],
-                                                'trackers': [mg.cps(u) for u in t['trackers']],
-                                                'webseeds': [mg.cps(u) for u in t['webseeds']]},
-                     'valid': [mg.cps(u) for u in set(t['trackers'] + t['webseeds']) if _utils.is_url(u)]})
-    replies = drv.run(reqs)
+        if s.get('layout') is not None and 'odd' not in o['meta']:
+            reqs.append(_meta_req(_utils, t, o['meta']))
+        else:
+            reqs.append({'op': 'c13.torrent', 't': {'infohash': mg.cps(t['infohash']), 'name': mg.cps(t['name']), 'size': t['size'],
+                                                    'trackers': [mg.cps(u) for u in t['trackers']],
+                                                    'webseeds': [mg.cps(u) for u in t['webseeds']]},
+                         'valid': [mg.cps(u) for u in set(t['trackers'] + t['webseeds']) if _utils.is_url(u)]})
+    replies = par_run(drv, reqs, weight=lambda q: len(q['valid']) ** 2)
     for (s, o), r in zip(todo, replies):
         t = o['torrent']
+        lay = s.get('layout')
+        foreign = r.get('view') is not None
         case = {'kind': 'torrent', 'spec': s, 'torrent': t, 'env': env}
-        ctx.case(key=('t', env, o.get('uri'), json.dumps(s, sort_keys=True) if o.get('uri') is None else None),
-                 nontrivial=len(t['trackers']) > 1 or '%' in (o.get('uri') or ''), kind='torrent/' + ('ok' if r['hyp'] else 'outside-hyp') + tag)
-        if len(ctx.samples) < 6:
-            ctx.sample({'torrent': t, 'uri': o.get('uri')})
+        if lay is not None:
+            case['meta'] = o['meta']
+        n_urls = len(t['trackers']) + len(t['webseeds'])
+        if n_urls >= 10:
+            ctx.dist['torrent-urls/' + ('10-99' if n_urls < 100 else '100-999' if n_urls < 1000 else '>=1000')] += 1
+        if lay is not None:
+            m = o['meta']
+            flat = [u for tier in (m.get('announce-list') or []) for u in tier]
+            a = m.get('announce')
+            ctx.dist['layout/' + lay.get('origin', 'edit') + '/announce:' + ('absent' if a is None else 'in-list' if a in flat else
+                     'in-list-once-stored' if a.replace(' ', '+') in [u.replace(' ', '+') for u in flat] else 'not-in-list')
+                     + '/announce-list:' + ('absent' if m.get('announce-list') is None else 'empty' if not m['announce-list'] else
+                                            'only-empty-tiers' if not flat else 'dups' if len(set(flat)) < len(flat) or [] in m['announce-list'] else 'plain')] += 1
+            ul = m.get('url-list')
+            ctx.dist['layout/url-list:' + ('absent' if ul is None else 'str' if isinstance(ul, str) else 'list')] += 1
+        ctx.case(key=('t', env, o.get('uri'), json.dumps(s, sort_keys=True) if (o.get('uri') is None or lay is not None) else None),
+                 nontrivial=len(t['trackers']) > 1 or '%' in (o.get('uri') or ''),
+                 kind='torrent/' + ('foreign-layout/' if lay is not None else '') + ('ok' if r['hyp'] else 'outside-hyp') + tag)
+        if len(ctx.samples) < 6 or (lay is not None and ctx.dist['sampled-layout'] < 2 and len(t['trackers']) > 1 and len(t['trackers']) < 8):
+            if lay is not None:
+                ctx.dist['sampled-layout'] += 1
+            ctx.sample({'torrent': t, 'uri': o.get('uri'), 'metainfo fields': o['meta'] if lay is not None else None}, limit=10)
         if o.get('back') != t:
             ctx.violation('Torrent.magnet() -> str -> from_string -> torrent() does not preserve infohash, name, size, '
-                          'tracker order and webseeds' + (' (child interpreter with environment %s)' % env if env else ''),
+                          'tracker order and webseeds' + (' as the getters of the torrent show them (tracker fields not laid out by '
+                                                          'torf: written into the metainfo / read from a third-party file)' if lay is not None else '')
+                          + (' (child interpreter with environment %s)' % env if env else ''),
                           case, t, {k: o.get(k) for k in ('back', 'exc', 'uri', 'magnet_ok')}, finding_matchers=MATCHERS)
             continue
         if o.get('torrent_after_edit') != t or o.get('uri2') != o.get('uri') or o.get('back2') != t:
@@ -854,17 +1189,27 @@ def eval_torrents(ctx, drv, specs, env=None, obs=None):
                           {k: o.get(k) for k in ('back2', 'exc2', 'uri2', 'torrent_after_edit')}, finding_matchers=MATCHERS)
             continue
         ctx.dist['torrent/second-round-trip-after-edit'] += 1
+        if foreign:
+            # --- the getters against their model and against the specification of what they must show (C13_meta_getter_flat)
+            if 'ok' not in r['view']:
+                ctx.corr_break('c13.getter', case, r['view'], t)
+                continue
+            if not r['specEq']:
+                ctx.machinery_error('model of the trackers / webseeds getters differs from flatTrackersSpec / webseedsSpec although '
+                                    'C13_meta_getter_flat is proved', {'case': case, 'model': r['view']})
+                continue
+            if _unview(r['view']['ok']) != t:
+                ctx.corr_break('c13.getter', case, _unview(r['view']['ok']), t)
+                continue
         if not r['hyp']:
             continue
         m = r['model']
         if 'ok' not in m:
-            ctx.machinery_error('torrent round-trip model fails although C13_torrent_roundtrip is proved', {'case': case, 'model': m})
+            ctx.machinery_error('torrent round-trip model fails although C13_torrent_roundtrip / C13_meta_roundtrip is proved', {'case': case, 'model': m})
             continue
-        back = m['ok']
-        mv = {'infohash': mg.uncps(back['infohash']), 'name': mg.uncps(back['name']), 'size': back['size'],
-              'trackers': [mg.uncps(u) for u in back['trackers']], 'webseeds': [mg.uncps(u) for u in back['webseeds']]}
+        mv = _unview(m['ok'])
         if mv != t:
-            ctx.machinery_error('torrent round-trip model does not return the torrent although C13_torrent_roundtrip is proved',
+            ctx.machinery_error('torrent round-trip model does not return the torrent although C13_torrent_roundtrip / C13_meta_roundtrip is proved',
                                 {'case': case, 'model': mv})
         elif mg.uncps(m['uri']) != o['uri']:
             ctx.corr_break('c13.torrent', case, mg.uncps(m['uri']), o['uri'])
@@ -905,26 +1250,56 @@ def run(ctx, drv):
         'legacy charsets are simulated by replacing os.fsencode, os.fsdecode, sys.getfilesystemencoding, '
         'locale.getpreferredencoding, locale.getencoding process-wide in the child before torf is imported',
         'torrent names with lone surrogates (undecodable file names) have no Lean string: judged against the property only',
+        'foreign tracker layouts: the model starts from the announce / announce-list / url-list values the torrent object holds '
+        'after validate() and dump() (for a file read with read_stream: what read_stream stored); only str / list of str / list of '
+        'lists of str shapes are modelled (other shapes pass validate() only as finding D07i of C07); the getters Torrent.trackers / '
+        'Torrent.webseeds are C16\'s model (Torf.Lists.getTrackers / urlsReplace), compared here with the real getters on such '
+        'metainfo; httpseeds is generated but is not part of a magnet link',
+        'an exportable torrent whose trackers / webseeds getter raises URLError (validate() accepts what utils.URL rejects, e.g. a '
+        'leading space: class of finding D07i, C07) is outside C13\'s quantifier; model and code must raise the same kind of error',
+        'size: the model has no limit on the number of fields, URLs, keywords or on value lengths; the quick tier goes up to 1500 URLs '
+        '(finding D08h: the parser is quadratic in the number of trackers)',
     ]
     rng = ctx.rng
+    import time
+    t_prev = [time.time()]
+    walls = ctx.notes.setdefault('phase_wall_s', {})
+
+    def lap(name):
+        walls[name] = round(time.time() - t_prev[0], 1)
+        t_prev[0] = time.time()
     for c in mg.corpus_cases('C13'):          # past failures first
         ctx.dist['corpus'] += 1
         _eval_case(ctx, drv, c)
+    lap('corpus')
     eval_quote(ctx, drv)
+    lap('quote')
     kws = FIXED + [gen_kwargs(rng) for _ in range(ctx.n(20000, 300000))]
-    eval_magnets(ctx, drv, kws)
+    sized = sized_magnets(ctx, rng)
+    eval_magnets(ctx, drv, kws + sized)
+    lap('magnets')
     # parser model on mangled links
     torf = common.import_torf()
     base = []
-    for kw in kws[:ctx.n(8000, 60000)]:
+    for kw in kws[:ctx.n(8000, 60000)] + [kw for kw in sized if len(kw.get('tr', [])) + len(kw.get('ws', [])) <= 320][:ctx.n(30, 300)]:
         try:
             base.append(str(torf.Magnet(**kw)))
         except BaseException:  # noqa
             pass
     eval_parser(ctx, drv, [mangle(rng, u) for u in base])
+    lap('parser')
     eval_histories(ctx, drv, fixed_histories() + [gen_history(rng) for _ in range(ctx.n(2500, 40000))])
-    eval_torrents(ctx, drv, [gen_env_torrent(rng) for _ in range(ctx.n(300, 3000))] + [gen_torrent(rng) for _ in range(ctx.n(3000, 40000))])
+    lap('histories')
+    rest = ([gen_env_torrent(rng) for _ in range(ctx.n(300, 3000))] + [gen_torrent(rng) for _ in range(ctx.n(3000, 40000))]
+            + layouts_small_scope()
+            + [gen_sized_torrent(rng, b + d) for b in (10, 50, 100, 128) for d in (-1, 0, 1)]
+            + [gen_sized_torrent(rng, rng.choice([200, 255, 256, 257, 300, 400, 512] if ctx.thorough else [200, 255, 256, 257, 300])) for _ in range(ctx.n(3, 30))]
+            + [gen_sized_torrent(rng, rng.choice([999, 1000, 1001, 1024, 1100])) for _ in range(6 if ctx.thorough else 0)])
+    rng.shuffle(rest)                       # the big ones spread over the worker chunks
+    eval_torrents(ctx, drv, FIXED_TORRENTS + rest)
+    lap('torrents')
     eval_torrent_envs(ctx, drv)
+    lap('torrent-envs')
     ctx.exhaustive = False
     for f in ctx.open_findings():
         if f['id'] not in ctx.known:
@@ -933,9 +1308,10 @@ def run(ctx, drv):
 
 def search(ctx, drv):
     rng = ctx.rng
-    eval_magnets(ctx, drv, [gen_kwargs(rng, findings_share=0.05) for _ in range(ctx.n(20000, 300000))])
+    eval_magnets(ctx, drv, [gen_kwargs(rng, findings_share=0.05) for _ in range(ctx.n(20000, 300000))] + sized_magnets(ctx, rng))
     eval_histories(ctx, drv, [gen_history(rng, findings_share=0.03) for _ in range(ctx.n(8000, 80000))])
-    eval_torrents(ctx, drv, [gen_torrent(rng) for _ in range(ctx.n(4000, 40000))])
+    eval_torrents(ctx, drv, layouts_small_scope() + [gen_torrent(rng) for _ in range(ctx.n(4000, 40000))]
+                  + [gen_sized_torrent(rng, rng.choice([99, 100, 101, 128, 200, 256])) for _ in range(ctx.n(12, 60))])
     eval_torrent_envs(ctx, drv, scale=3.0)
 
 
